@@ -24,9 +24,41 @@ PROBE_FINDINGS = [
     ("C04-nested-recovered-panic-swallows-outer", "nested-recovered", [9]),
     ("C04-goexit-during-panic", "goexit-in-deferred", [15]),
     ("C04-panic-nil", "panic-nil", [22]),
-    ("C04-block-order-replay", "loop-branch-then-defer", [26, 27, 28]),
+    ("C04-block-order-replay", "loop-branch-then-defer", [26, 27]),
     ("C04-frame-stays-linked", "first-defer-panics", [29]),
 ]
+
+# The exact trace llgo produces today for the probe units of the open findings ("CRASH" = the binary dies inside the
+# unit after printing these lines).  A probe unit that fails in any OTHER way is not covered by the finding -> VIOLATION.
+KNOWN_BAD = {
+    1: ["helper.rec int:1", "top.res 0"],
+    2: ["nested.rec int:1", "top.res 0"],
+    3: ["top.res 0"],
+    4: ["g4.rec int:1", "top.res 0"],
+    24: ["p24.rec int:1", "top.res 0"],
+    5: ["top.res 1"],
+    6: ["MONITOR: deferred call 61 0 0 ran but is not pending (duplicate, never deferred, or arguments differ from those at the defer statement)",
+        "vd 61 0 0", "top.rec int:1", "MONITOR: 1 registered deferred calls never ran; last site 61"],
+    7: ["p7.b", "p7.a", "top.rec int:1"],
+    8: ["p8.b", "p8.a", "top.rec int:2"],
+    9: ["p9.inner.rec int:2", "top.res 0"],
+    15: ["p15.outer", "top.rec int:1"],
+    22: ["p22.rec false", "top.res 0"],
+    26: ["top.rec rt:nilderef", "MONITOR: 1 registered deferred calls never ran; last site 262"],
+    27: ["d 273 1 0", "d 272 1 0", "top.res 1", "MONITOR: 2 registered deferred calls never ran; last site 272"],
+    29: ["CRASH", "p29.rec int:29", "p29.inner.d"],
+}
+
+
+def is_known_bad(u, why, got):
+    kb = KNOWN_BAD.get(u)
+    if kb is None:
+        return False
+    g = [l for l in got if l.strip()]
+    if kb[0] == "CRASH":
+        return "inside this unit" in why and "signal" in why and g == kb[1:]
+    return g == kb
+
 
 PANIC_RE = re.compile(r"^\s*panic: (.*)$")
 
@@ -128,14 +160,14 @@ def term(r):
     return "%s rc=%s" % (r.kind, r.rc)
 
 
-def compare(chk, tag, make_src, w, llgo, d, stats, unit_desc):
+def compare(chk, tag, make_src, w, llgo, d, stats, unit_desc, attempts=4):
     """Builds/runs one program with the three toolchains; returns list of failures
     [(unit, why, ref_lines, got_lines)] and updates stats.  make_src(skip) -> source text.
     A crash of the llgo binary is blamed on the unit in flight; the program is re-run without that unit (<= 3 times)."""
     fails = []
     skip = []
     refs = None
-    for attempt in range(4):
+    for attempt in range(attempts):
         src = make_src(tuple(skip))
         b = build_run(w, llgo, os.path.join(d, "a%d" % attempt), src, which=("llgo",) if refs else ("llgo", "go124", "go126"))
         if refs is None:
@@ -241,7 +273,7 @@ def main():
     chk = core.Check("C04")
     w = chk.work
     llgo = core.build_llgo(w)
-    workers = int(os.environ.get("VERIF_C04_WORKERS", "4"))
+    workers = int(os.environ.get("VERIF_C04_WORKERS", "4" if chk.tier == "quick" else "8"))
     nprog = int(os.environ.get("VERIF_C04_PROGS", "30" if chk.tier == "quick" else "800"))
     nfuncs = 20
     stats = {"evaluations": 0, "lines": 0, "reference_disagreement": 0, "invalid_generated": 0, "uncaught_compared": 0,
@@ -263,8 +295,8 @@ def main():
     avoid = []
     covered = set()
     for fid, construct, units in PROBE_FINDINGS:
-        hit = [u for u in units if u in failed_units]
-        covered.update(units)
+        hit = [u for u in units if u in failed_units and is_known_bad(u, failed_units[u][0], failed_units[u][2])]
+        covered.update(hit)
         if hit:
             if chk.is_open(fid):
                 chk.known(fid, "")
@@ -276,17 +308,25 @@ def main():
                                                  "replay.sh": REPLAY_SH},
                               "probe unit %d (finding %s is not listed as open): %s" % (u, fid, failed_units[u][0]))
                 avoid.append(construct)
+    nprobe_viol = 0
     for u in sorted(failed_units):
         if u not in covered:
+            nprobe_viol += 1
+            if nprobe_viol > 8:
+                continue
             why, ref, got = failed_units[u]
             src = gen.probe_program(only_units=[u]) if u >= 0 else psrc
             violate(chk, "probe-%d" % u, {"main.go": src, "go.mod": "module c04p\n\ngo 1.24\n", "expected.txt": "\n".join(ref), "got.txt": "\n".join(got),
                                              "replay.sh": REPLAY_SH},
                           "probe unit %d: %s" % (u, why))
+    chk.cov["probe_units_failing_outside_findings"] = nprobe_viol
     chk.cov["probe_units_compared"] = pstats["evaluations"]
     chk.cov["probe_reference_disagreement_units"] = pstats["reference_disagreement"]
     chk.cov["avoided_constructs"] = avoid
     if pstats["evaluations"] < 30:
+        if chk.violations:
+            chk.cov["evaluations"] = pstats["evaluations"]
+            chk.finish()
         core.broken("probe battery compared only %d units" % pstats["evaluations"])
 
     # ------------------------------------------------------------------ random programs
@@ -306,7 +346,7 @@ def main():
             oc = "res" if "top.res" in kinds else ("rec" if "top.rec" in kinds else "goexit")
             nd = sum(1 for k in kinds if k in ("d", "d2", "vm", "pm", "vd", "vs", "id", "dq", "recov", "bp") or k[:2] in ("cl", "ca", "li"))
             sigs.append((core.h(meta[fid]), mode, oc, min(nd, 40) // 4, "rec" in kinds or "rh" in kinds or "recov" in kinds, "goexit" in kinds))
-        fails, src = compare(chk, "p%d" % idx, lambda skip: gen.generate(chk.seed, idx, avoid, nfuncs, skip_units=skip)[0], w, llgo, d, st, desc)
+        fails, src = compare(chk, "p%d" % idx, lambda skip: gen.generate(chk.seed, idx, avoid, nfuncs, skip_units=skip)[0], w, llgo, d, st, desc, attempts=2)
         shutil.rmtree(d, ignore_errors=True)
         return idx, fails, st, sigs, meta, umap
 
